@@ -415,7 +415,12 @@ def seed_ttf() -> Tuple[Doc, Dict[str, Any]]:
                 "FontDescriptor": fd, "DW": 500, "W": [5, [600, 700]], "CIDToGIDMap": N("Identity")})
     f1 = d.add({"Type": N("Font"), "Subtype": N("Type0"), "BaseFont": N("AAAAAA+Ttf"), "Encoding": N("Identity-H"), "DescendantFonts": [df]})
     f2 = d.add({"Type": N("Font"), "Subtype": N("TrueType"), "BaseFont": N("AAAAAA+Ttf"), "FirstChar": 65, "LastChar": 66, "Widths": [500, 600], "FontDescriptor": fd})
-    cat = _skeleton(d, b"BT /F1 10 Tf 10 200 Td <00050006000900140028> Tj /F2 10 Tf 0 -20 Td (AB) Tj ET", {"Font": {"F1": f1, "F2": f2}})
+    # the same program behind a CIDToGIDMap STREAM (CID 1..4 -> glyphs 5, 6, 9, 20), added after seeded defect C13_10 was missed
+    c2g = d.add(Stream({}, b"".join(g.to_bytes(2, "big") for g in (0, 5, 6, 9, 20))))
+    df3 = d.add({"Type": N("Font"), "Subtype": N("CIDFontType2"), "BaseFont": N("AAAAAA+Ttf"), "CIDSystemInfo": {"Registry": b"Adobe", "Ordering": b"Identity", "Supplement": 0},
+                 "FontDescriptor": fd, "DW": 500, "CIDToGIDMap": c2g})
+    f3 = d.add({"Type": N("Font"), "Subtype": N("Type0"), "BaseFont": N("AAAAAA+Ttf"), "Encoding": N("Identity-H"), "DescendantFonts": [df3]})
+    cat = _skeleton(d, b"BT /F1 10 Tf 10 200 Td <00050006000900140028> Tj /F2 10 Tf 0 -20 Td (AB) Tj /F3 10 Tf 0 -20 Td <0001000200030004> Tj ET", {"Font": {"F1": f1, "F2": f2, "F3": f3}})
     return d, {"root": cat}
 
 
